@@ -296,11 +296,48 @@ def tree_utf8(v):
     return v
 
 
+def replay_one(ctx, res, exe):
+    """bin/check C05 --replay FILE: re-judge the single text of a replay file."""
+    import json
+    d = json.load(open(ctx['replay']))
+    text = d['text'].encode('latin-1')
+    st = impl.dump(exe, [text], ['parse'], ['bash'])[0]['bash']
+    m = model.run(['parse %s' % sexp.quote(as_latin(text))])[0]
+    rust = st.get('PARSE', str(st))
+    res.evaluations = 1
+    res.rule = 'replay of one text'
+    print('text :', repr(text))
+    print('rust :', rust[:2000])
+    print('model:', m[:2000])
+    replay = dict(kind='replay', text=d['text'], impl=rust[:3000], model=m[:3000])
+    if rust == m:
+        res.traces_validated = 1
+    else:
+        res.violations.append(report.Violation('tie T1 broken at stage parse: model and implementation disagree', replay,
+                                               found_input=False))
+    try:
+        want = sexp.parse(d['expected_spans']) if 'expected_spans' in d else None
+    except (ValueError, IndexError):
+        want = None
+    if want is not None and rust.startswith('(ok '):
+        got = sexp.parse(rust)[1]
+        if erase(got) != erase(want):
+            res.violations.append(report.Violation('C05: printed grammar parses to a different tree', replay))
+        elif got != want:
+            pin = model.run(['parse_repaired %s' % sexp.quote(as_latin(text))])[0]
+            cls = 'span_reset_after_escape' if pin.startswith('(ok ') and sexp.parse(pin)[1] == want else None
+            res.violations.append(report.Violation('C13 (parser half): a span is not where the construct starts', replay, cls=cls))
+    elif want is not None:
+        res.violations.append(report.Violation('C05: printed grammar rejected by the parser', replay))
+
+
 def run(ctx, res):
     with build.Lock():
         exe = build.harness()
     r = ctx['rng']
     thorough = ctx['tier'] == 'thorough'
+    if ctx.get('replay'):
+        return replay_one(ctx, res, exe)
 
     # ---- 1. trees to print: (family, grammar, [(seed, density)...])
     jobs = []
